@@ -117,7 +117,7 @@ func RunLatch(seed int64, dur time.Duration) (out []Ev) {
 	}
 	type seenT map[uint32]map[triple]bool
 	var smu sync.Mutex
-	all := map[string]seenT{"queryat": {}, "range": {}, "filtered": {}, "ascend": {}}
+	all := map[string]seenT{"queryat": {}, "range": {}, "filtered": {}, "ascend": {}, "nested": {}}
 	var reads int64
 	parse := func(s string) int {
 		if len(s) < 2 || s[0] != 'v' {
@@ -129,9 +129,9 @@ func RunLatch(seed int64, dur time.Duration) (out []Ev) {
 		}
 		return n
 	}
-	for g := 0; g < 11; g++ {
+	for g := 0; g < 13; g++ {
 		wg.Add(1)
-		how := []string{"queryat", "range", "filtered", "queryat", "range", "filtered", "queryat", "range", "filtered", "ascend", "ascend"}[g]
+		how := []string{"queryat", "range", "filtered", "queryat", "range", "filtered", "queryat", "range", "filtered", "ascend", "ascend", "nested", "nested"}[g]
 		lr := rand.New(rand.NewSource(seed*17 + int64(g)))
 		go func() {
 			defer wg.Done()
@@ -160,6 +160,29 @@ func RunLatch(seed int64, dur time.Duration) (out []Ev) {
 						b, _ := r.Int32("b")
 						s, _ := r.String("s")
 						note(o, a, b, s)
+						return nil
+					})
+				case "nested":
+					// point reads of rows of the NEXT block from inside an iteration over the rows of the first one (the
+					// transaction's own QueryAt, several in a row): each nested callback is latched on its own block
+					// (nesting goes one way only: two readers nesting in opposite directions can deadlock behind queued writers)
+					P.Query(func(txn *column.Txn) error {
+						txn.With("a")
+						txn.Range(func(idx uint32) {
+							if idx >= 16384 {
+								return
+							}
+							for k := 0; k < 3; k++ {
+								o := rows[8+lr.Intn(8)]
+								txn.QueryAt(o, func(r column.Row) error {
+									a, _ := r.Int64("a")
+									b, _ := r.Int32("b")
+									s, _ := r.String("s")
+									note(o, a, b, s)
+									return nil
+								})
+							}
+						})
 						return nil
 					})
 				case "ascend":
@@ -219,7 +242,7 @@ func RunLatch(seed int64, dur time.Duration) (out []Ev) {
 		w.T.Log(Ev{"e": "lmax", "o": int(o), "k": int(atomic.LoadInt64(&ver[i]))})
 	}
 	total := 0
-	for _, how := range []string{"queryat", "range", "filtered", "ascend"} {
+	for _, how := range []string{"queryat", "range", "filtered", "ascend", "nested"} {
 		var os []int
 		for o := range all[how] {
 			os = append(os, int(o))
